@@ -148,13 +148,9 @@ impl<W: Write> ProtocolWriter<W> for DefaultProtocolWriter<W> {
             } else {
                 self.write_type_and_value(FSM_PROTOCOL_TYPE_STRING_LENGTH_64BIT, len as u64, 68);
             }
-            let r = self.writer.write(value.as_bytes());
-            match r {
-                Ok(_) => {}
-                Err(error) => {
-                    self.eval_result(Err(error));
-                }
-            }
+            // write_all: a sink may take only a part of the buffer in one call.
+            let r = self.writer.write_all(value.as_bytes());
+            self.eval_result(r);
         }
     }
 
